@@ -494,6 +494,23 @@ impl Prop for C16 {
         }
     }
 
+    fn sanitizer_cases(&self, _seed: u64) -> Vec<Value> {
+        let mut v = Vec::new();
+        for ty in ALL_TYPES {
+            for (cut, fault, order) in [
+                ("between-messages", "close", "read-first"),
+                ("inside-body", "reset", "read-first"),
+                ("between-frames", "protocol-error", "read-first"),
+                ("after-flags", "close", "write-first"),
+            ] {
+                v.push(json!({"kind": "post", "ty": ty, "cut": cut, "fault": fault, "order": order, "live": 1}));
+            }
+            v.push(json!({"kind": "hs", "ty": ty, "off": 10, "fault": "close", "live": 1}));
+            v.push(json!({"kind": "hs", "ty": ty, "off": 66, "fault": "reset", "live": 0}));
+        }
+        v
+    }
+
     fn floors(&self, _tier: Tier) -> Vec<(&'static str, u64)> {
         let mut f = vec![
             ("fault/close", 500),
@@ -507,8 +524,16 @@ impl Prop for C16 {
             ("released_after_observation", 0),
             ("handshake_failed_cleanly", 300),
         ];
-        for c in CUTS {
-            f.push((Box::leak(format!("cut/{c}").into_boxed_str()), 100));
+        for c in [
+            "cut/between-messages",
+            "cut/after-flags",
+            "cut/inside-8byte-size",
+            "cut/inside-body",
+            "cut/between-frames",
+            "cut/inside-last-frame",
+            "cut/after-complete-message",
+        ] {
+            f.push((c, 100));
         }
         f
     }
